@@ -149,7 +149,9 @@ def body(cfg):
     S.claim("opposite_corner_displaced_by_dimensions", S.eq([opp[a] - exp_org[a] for a in range(dim)], disp))
 
     # ---- arbitrary (also out-of-range) voxel index
-    v = [S.integer(f"v{m}", -(10**7), 10**7) for m in range(dim)]
+    # (seeded constant runs use moderate indices: in doubles, differences of coordinates of far-away
+    #  voxels lose digits, which is not what the const-versus-plain comparison is about)
+    v = [S.integer(f"v{m}", -(10**7), 10**7, default=lambda rng: rng.randint(-40, 40)) for m in range(dim)]
     cv = cs.coordinate(list(v))
     exp_cv = [0] * dim
     for m in range(dim):
@@ -197,7 +199,7 @@ def body(cfg):
     S.claim("typed_results_have_the_right_type", isinstance(vc.to_coordinate(cs), darsia.Coordinate) and isinstance(darsia.Coordinate(arr).to_voxel(cs), darsia.Voxel) and isinstance(darsia.Voxel(list(v)).to_voxel_center(), darsia.VoxelCenter))
 
     # ---- batch call forms: row-wise identical to single calls
-    w = [S.integer(f"w{m}", -(10**7), 10**7) for m in range(dim)]
+    w = [S.integer(f"w{m}", -(10**7), 10**7, default=lambda rng: rng.randint(-40, 40)) for m in range(dim)]
     cw = cs.coordinate(list(w))
     batch = cs.coordinate([list(v), list(w)])
     S.claim("batch_coordinate_is_rowwise", S.and_(S.eq(list(batch[0]), list(cv)), S.eq(list(batch[1]), list(cw)), batch.shape == (2, dim)))
